@@ -52,12 +52,14 @@ def finish_desc(d, touch="before"):
 
 
 def held_bound(d):
-    """C12 bound used by the spec's HeldBounded for this configuration: buffer + the largest
-    container (back-pressure is evaluated before a container is appended) + the containers the
-    reader's current object still overlaps (largest object rounded up to containers + 1)."""
+    """C12 bound used by the spec's HeldBounded for this configuration.  It must not depend on the number of
+    containers, and it must hold for EVERY schedule (the M2 configurations are not explored exhaustively):
+    the decompressor appends while fewer than B bytes are between the get and the put position, one container at a
+    time; the reader keeps the containers its current object overlaps, and a skip over an unknown object can move
+    the get position ahead of the put position by up to an object size."""
     maxu = max([c["usize"] for c in d["conts"]] + [0])
     maxo = max([o["osz"] for o in d["objs"]] + [0])
-    return d["B"] + 2 * maxu + maxo
+    return d["B"] + 3 * maxu + 2 * maxo
 
 
 def fmt_action(a):
